@@ -46,6 +46,17 @@ pub struct DfsState {
     pub replay_only: bool,
     pub max_executions: u64,
     pub cap_hit: bool,
+    /// polling waiters that have polled since the last non-waiting task ran (see next_task)
+    pub idle: std::collections::BTreeSet<usize>,
+    /// wall-clock end of the whole check: exploration of a scenario stops at the next execution
+    /// boundary after it (reported as a cap, never as a verdict)
+    pub deadline: Option<std::time::Instant>,
+    pub deadline_hit: bool,
+    /// executions of this scenario that violated an oracle so far (counted by the driver); the
+    /// scenario is abandoned once `max_violating` of them have been seen - it is refuted already
+    pub violating: std::sync::Arc<std::sync::atomic::AtomicU64>,
+    pub max_violating: u64,
+    pub stopped_after_violations: bool,
     /// called between executions (and by the driver after the last one)
     pub on_execution_end: Option<Box<dyn FnMut(&[usize]) + Send>>,
     pub in_execution: bool,
@@ -68,6 +79,12 @@ impl DfsState {
             replay_only: false,
             max_executions,
             cap_hit: false,
+            idle: std::collections::BTreeSet::new(),
+            deadline: None,
+            deadline_hit: false,
+            violating: std::sync::Arc::new(std::sync::atomic::AtomicU64::new(0)),
+            max_violating: u64::MAX,
+            stopped_after_violations: false,
             on_execution_end: None,
             in_execution: false,
             replay_tasks: false,
@@ -152,6 +169,16 @@ impl Scheduler for DfsScheduler {
                 s.exhausted = true;
                 return None;
             }
+            if s.violating.load(std::sync::atomic::Ordering::Relaxed) >= s.max_violating {
+                s.stopped_after_violations = true;
+                s.exhausted = true;
+                return None;
+            }
+            if s.deadline.map(|d| std::time::Instant::now() > d).unwrap_or(false) {
+                s.deadline_hit = true;
+                s.exhausted = true;
+                return None;
+            }
             if !s.backtrack() {
                 s.exhausted = true;
                 return None;
@@ -160,6 +187,7 @@ impl Scheduler for DfsScheduler {
         }
         s.pos = 0;
         s.cur_pre = 0;
+        s.idle.clear();
         s.in_execution = true;
         Some(Schedule::new(0))
     }
@@ -176,10 +204,34 @@ impl Scheduler for DfsScheduler {
         ids.sort_unstable();
         let cur_enabled = cur.map(|c| ids.contains(&c)).unwrap_or(false);
         let mut options: Vec<(usize, u8)> = Vec::with_capacity(ids.len());
+        // fairness among polling waiters (timed receives, the harness' sleep): a waiter that has
+        // polled since the last time a non-waiting task ran is idle - running it again changes
+        // nothing - so it is not offered while something else can run (Musuvathi/Qadeer fair
+        // scheduling restricted to yields); without this two waiters can alternate for ever
+        let is_poller = |i: usize| sched_facade::POLLERS.with(|p| p.borrow().contains_key(&i));
+        if let Some(c) = cur {
+            if !is_poller(c) {
+                s.idle.clear();
+            }
+        }
         if is_yielding && cur_enabled {
+            let c = cur.unwrap();
+            if is_poller(c) {
+                s.idle.insert(c);
+            }
+            let fresh: Vec<usize> = ids.iter().copied().filter(|i| *i != c && !s.idle.contains(i)).collect();
             if ids.len() == 1 {
                 sched_facade::QUIESCENT_AT_LAST_YIELD.with(|c| c.set(true));
                 options.push((ids[0], 0));
+            } else if !fresh.is_empty() {
+                sched_facade::QUIESCENT_AT_LAST_YIELD.with(|c| c.set(false));
+                for i in fresh {
+                    options.push((i, 0));
+                }
+            } else if let Some(next) = sched_facade::time_passes(&ids) {
+                // every runnable task is waiting for time to pass: the wait that ends first does
+                sched_facade::QUIESCENT_AT_LAST_YIELD.with(|c| c.set(Some(next) == cur));
+                options.push((next, 0));
             } else {
                 sched_facade::QUIESCENT_AT_LAST_YIELD.with(|c| c.set(false));
                 for &i in &ids {
